@@ -350,10 +350,22 @@ def run(chk):
         chk.rule_filter = lambda r: r.startswith(("R1", "R2"))
         C05.run_config(chk, cfg)
         # receivep single owner: reuse C04.R6
+        # receivep single owner (C04.R6); shared indices are only ever updated by read-modify-write, the send cursor is
+        # handed out by compare-exchange (C04.R1, R4): a blind store between two senders' updates lets two of them write
+        # the same payload bytes without ordering
         chk.rule_prefix = "mq."
-        chk.rule_filter = lambda r: r.startswith("R6")
+        chk.rule_filter = lambda r: r.startswith(("R6", "R1", "R4"))
         C04.run_config(chk, cfg)
         chk.rule_prefix = ""
         chk.rule_filter = None
+        if cfg == "default":
+            # interrupt-callable entry points must not read or write the scheduler's plain (non-atomic) main-context state:
+            # every such access conflicts with fibre_scheduler_next's plain writes without any happens-before edge (C06.I1)
+            from . import C06
+            chk.rule_prefix = "isr."
+            chk.rule_filter = lambda r: r.startswith("I1")
+            C06.check_i1(chk, progs[cfg], flow.Program(progs[cfg]))
+            chk.rule_prefix = ""
+            chk.rule_filter = None
     check_r4(chk)
     check_r5(chk, progs)
